@@ -168,6 +168,7 @@ def gen_history(rng):
     nconn = 2
     names = rng.sample(NAMES, rng.randint(2, 5))
     live = [dict() for _ in range(nconn)]
+    past = [[] for _ in range(nconn)]
     ops = []
     for _ in range(rng.randint(4, 14)):
         c, k = rng.randrange(nconn), rng.randrange(2)
@@ -175,6 +176,9 @@ def gen_history(rng):
         if x < 0.4:
             n = rng.choice(names)
             v = rng.choice(VALUES)
+            if past[c] and rng.random() < 0.35:
+                n, v = rng.choice(past[c])          # the byte-identical SET once more, after other statements changed or removed the variable
+            past[c].append((n, v))
             live[c][n] = v
             ops.append(("set", c, k, n, v))
         elif x < 0.5 and live[c]:
@@ -235,6 +239,9 @@ def check_histories(ck: Check):
     # corpus: cross-cursor / cross-connection visibility
     hists.insert(0, (2, [("set", 0, 0, "A", VALUES[0]), ("use", 0, 1, ["a"], None), ("use", 1, 0, ["A"], None), ("set", 0, 1, "A", VALUES[2]),
                          ("use", 0, 0, ["a"], None), ("use", 0, 0, ["a"], "pay $a now"), ("unset", 0, 1, "A"), ("use", 0, 0, ["a"], None)]))
+    # byte-identical SET / UNSET texts repeated after the variable was changed or removed by other texts
+    hists.insert(1, (2, [("set", 0, 0, "A", VALUES[0]), ("set", 0, 0, "A", VALUES[1]), ("set", 0, 1, "A", VALUES[0]), ("use", 0, 0, ["a"], None), ("unset", 0, 0, "A"),
+                         ("set", 0, 0, "A", VALUES[0]), ("use", 0, 1, ["A"], None), ("unset", 0, 0, "A"), ("use", 0, 0, ["a"], None), ("set", 1, 0, "A", VALUES[0]), ("use", 1, 1, ["a"], None)]))
     # the same cursor repeating the same statement text while ANOTHER cursor of the connection changes the variable
     hists.insert(1, (2, [("set", 0, 0, "A", VALUES[0]), ("use", 0, 0, ["a"], None), ("set", 0, 1, "A", VALUES[2]), ("use", 0, 0, ["a"], None), ("use", 0, 0, ["a"], None),
                          ("unset", 0, 1, "A"), ("use", 0, 0, ["a"], None), ("set", 1, 1, "A", VALUES[1]), ("use", 1, 0, ["a"], None), ("use", 0, 0, ["a"], None)]))
